@@ -34,7 +34,7 @@ func init() {
 			"(5 validators: every non-increasing vector) x every assignment validator->{abstain, one of <=3 evidence values} up to renaming of values " +
 			"x 3 ways of reaching it (plain, every validator first submits another value and then replaces it, two outsiders added), per evidence family; " +
 			"every multiset of size <=N over 10 boundary uint64 values for Median (3 orders each); every (share vector, submitting subset, 0..2 outsiders) for VerifyGasEstimates. " +
-			"The quick tier runs this scope completely for the family 'error-proof' and a 1/8 sample of the 4- and 5-validator part for the other 8 evidence families; the thorough tier runs it completely for all families (5 validators: all vectors; 6 validators non-increasing for 'error-proof'); " +
+			"The quick tier runs this scope completely for the family 'error-proof' and a 1/8 sample of the 4- and 5-validator part for the other 8 evidence families; the thorough tier runs it completely for all families (and, for 'error-proof', all 7^5 vectors of 5 validators plus the non-increasing vectors of 6); " +
 			"(b) random: 30..175 validators with shares up to 2^200 steered to the 2/3 boundary (one below / exact / one above), re-submissions, outsiders. " +
 			"IN SITU: seeded histories on the real app: per history one validator set (3..7 members, 0..2 bonded outsiders), per queued message an episode of evidence/estimate transactions " +
 			"steered to the boundary; oracle evaluated after every block. A case counts as distinct & non-trivial if at least one snapshot member submitted; " +
@@ -86,8 +86,8 @@ func cases(tier string, seed int64) []fw.Case {
 		}
 		for first := 1; first <= 7; first++ {
 			k++
-			// quick: non-increasing share vectors (every multiset once); thorough: every vector
-			p := exhParams{Mode: "ev-exh", Family: f.name, N: 5, Sorted: !thorough, First: first}
+			// non-increasing share vectors (every multiset once); thorough + first family: every vector
+			p := exhParams{Mode: "ev-exh", Family: f.name, N: 5, Sorted: !(thorough && fi == 0), First: first}
 			if !full {
 				p.Stride, p.Offset = 8, int(seed%8+8)%8
 			}
